@@ -33,8 +33,11 @@ pub fn exec(toks: &[&str]) -> String {
     let (obj, issuers) = ders.split_last().unwrap();
     let Some(issuer) = c01::issuer_chain(issuers) else { return "issuer-invalid".into() };
     let obj = Bytes::from(obj.clone());
-    let crl = move |_: &rpki::repository::cert::Cert| -> Result<(), ValidationError> {
-        if crl_ok { Ok(()) } else {
+    // the revocation callback looks at the certificate it is handed: when the case says "revoked", it is the EE
+    // certificate's serial number that is on the list (the issuing chain's serials are never on it)
+    let ee_serial = SignedObject::decode(obj.clone(), false).ok().map(|o| o.cert().serial_number());
+    let crl = move |c: &rpki::repository::cert::Cert| -> Result<(), ValidationError> {
+        if crl_ok || Some(c.serial_number()) != ee_serial { Ok(()) } else {
             Err(rpki::repository::error::VerificationError::new("revoked").into())
         }
     };
@@ -250,10 +253,29 @@ pub fn generate(ctx: &mut Ctx) {
                     v6.push((bits, len, if rng.bool() { Some(rng.range(len as u64, 128) as u32) } else { None }));
                 }
                 if v4.is_empty() && v6.is_empty() { v4.push((0x0Au128, 8, None)); }
+                // a covered prefix first, then a less-specific one that only *ends* inside the certificate's block
+                // (or starts inside it): the certificate holds one half of a prefix, the ROA lists the whole
+                let halves = rng.chance(1, 6);
+                let mut half_res: Vec<(u128, u128)> = Vec::new();
+                if halves {
+                    let (bits, len) = match rng.below(3) { 0 => (0x0Au128, 8u32), 1 => (0xC000_02u128, 24), _ => ((0x0Au128 << 8) | rng.below(256) as u128, 16) };
+                    let upper = rng.bool();
+                    let hb = (bits << 1) | upper as u128;
+                    v4.clear();
+                    v4.push((hb, len + 1, None));
+                    if rng.bool() { v4.push(((hb << 1) | rng.below(2) as u128, len + 2, Some(32))); }
+                    v4.push((bits, len, None));
+                    if rng.chance(1, 3) { v4.swap(0, 1); }
+                    half_res.push(prefix_range(32, hb, len + 1));
+                }
                 // EE resources: usually exactly what is needed, sometimes inherit, sometimes too little
                 let r4: Vec<(u128, u128)> = v4.iter().map(|(b, l, _)| prefix_range(32, *b, *l)).collect();
                 let r6: Vec<(u128, u128)> = v6.iter().map(|(b, l, _)| prefix_range(128, *b, *l)).collect();
-                match rng.below(8) {
+                match if halves { 99 } else { rng.below(8) } {
+                    99 => {
+                        ee.v4 = Res::Blocks(half_res.clone());
+                        ee.v6 = if r6.is_empty() { Res::Missing } else { Res::Blocks(r6.clone()) };
+                    }
                     0 => { ee.v4 = Res::Inherit; ee.v6 = Res::Inherit; }
                     1 => { ee.v4 = Res::Blocks(w.v4.clone()); ee.v6 = if r6.is_empty() { Res::Missing } else if w.v6.is_empty() { Res::Inherit } else { Res::Blocks(w.v6.clone()) }; ee.trim = true; }
                     2 => {
